@@ -72,6 +72,8 @@ pub struct FnSig {
     pub uses_compress: bool,
     /// a recursive function being translated (`rec=1`): calls from its own body go to `<lean>.go … fuel`
     pub rec_self: bool,
+    /// an `extern` target: not translated, a parameter `ext_<Type>_<name>` of every function that calls it (its Lean type)
+    pub ext_ty: Option<String>,
 }
 
 /// the type a target line instantiates a type parameter with: `B=Block`, or `W=@extw` for an abstract writer
@@ -81,6 +83,7 @@ pub fn inst_ty(s: &str) -> Ty {
         "@sink" => Ty::Sink,
         "@bytes" => Ty::Bytes,
         "@src" => Ty::Src,
+        "@unit" => Ty::Unit,
         _ => Ty::Named(s.to_string()),
     }
 }
@@ -460,6 +463,8 @@ pub struct Ctx<'w> {
     pub xcodec: bool,
     pub used_xcompress: bool,
     pub used_xdecompress: bool,
+    /// external functions called: (parameter name, Lean type), in first-use order
+    pub used_externs: Vec<(String, String)>,
     /// wrappers still alive at the end of the function: (place text, Lean callee, place) dropped before the final return
     pub pending_drops: Vec<(String, String)>,
     /// rust variables standing for one element of a list place (`if let Some(x) = v.last_mut()`, `split_last_mut`)
